@@ -294,6 +294,14 @@ func (pp *PreParams) Unmarshal(bytes []byte) error {
 		return fmt.Errorf("failed to unmarshal pre params: [%v]", err)
 	}
 
+	// An empty or cut-short record (e.g. the client was killed while saving
+	// it) decodes to a message without data. Without this check all numbers
+	// would silently become zero and pass the nil-only validation of the
+	// pre-parameters.
+	if pbPreParams.Data == nil {
+		return fmt.Errorf("failed to unmarshal pre params: no data")
+	}
+
 	pp.data = &keygen.LocalPreParams{
 		PaillierSK: &paillier.PrivateKey{
 			PublicKey: paillier.PublicKey{
